@@ -86,7 +86,7 @@ def _span_text(sp):
     return " ".join(" ".join(t["text"] for t in sp["text"]).split())
 
 
-def classify(diags, w):
+def classify(diags, w, gen_file=None):
     """-> (failures, hard_errors). failure: dict(fn, label(s)|None, clause, kind, site, message, rendered)"""
     failures, hard = [], []
     for d in diags:
@@ -104,19 +104,28 @@ def classify(diags, w):
         clause = None
         site_sp = None
         for sp in d.get("spans", []):
+            if gen_file and os.path.basename(sp.get("file_name", gen_file)) != os.path.basename(gen_file):
+                continue      # span inside vstd (e.g. the precondition of Result::expect): not ours
             # a span inside a macro expansion (matches!, vec!, ...) -> use the macro call site
             lab0, prim0 = sp.get("label"), sp.get("is_primary")
             while (sp.get("expansion") and sp["expansion"].get("span")
                    and str(sp["expansion"].get("macro_decl_name", "")).endswith("!")):
                 sp = dict(sp["expansion"]["span"])
                 sp["label"], sp["is_primary"] = lab0, prim0
-            c = _clause_at(w.clauses, sp["line_start"], sp["line_end"])
             lab = sp.get("label") or ""
-            if c is not None and ("failed" in lab or site_sp is not None or not sp.get("is_primary")
-                                  or msg.startswith(("invariant", "loop invariant", "decreases", "cannot show"))):
-                clause = c if clause is None else clause
-            elif c is not None and clause is None and len(d.get("spans", [])) == 1:
-                clause = c
+            if lab.startswith("failed"):
+                is_clause = True           # "failed this postcondition" / "failed precondition" / "failed this invariant"
+            elif lab.startswith("at "):
+                is_clause = False          # "at this exit" / "at the end of the function body" / "at this loop exit"
+            else:
+                # unlabelled: the clause itself for invariant / decreases failures, otherwise the site
+                is_clause = msg.startswith(("invariant", "loop invariant", "decreases", "cannot show", "loop ensures"))
+            if is_clause:
+                c = _clause_at(w.clauses, sp["line_start"], sp["line_end"])
+                if c is not None and clause is None:
+                    clause = c
+                elif c is None and site_sp is None:
+                    site_sp = sp           # clause written in hand-written text without a label
             else:
                 if site_sp is None or sp.get("is_primary"):
                     site_sp = sp
@@ -279,7 +288,7 @@ def run_unit(unit_path, repo=None, twin=True):
         res.update(status="undecided", reason="verus timeout after %ds" % VERUS_TIMEOUT)
         return res
     diags, raw = parse_diags(err)
-    failures, hard = classify(diags, w)
+    failures, hard = classify(diags, w, gen)
     if hard:
         res.update(status="undecided", reason="%s: %s" % (hard[0]["kind"], hard[0]["message"]), hard=hard)
         return res
@@ -323,7 +332,7 @@ def run_unit(unit_path, repo=None, twin=True):
             res.update(status="undecided", reason="verus timeout on vacuity twin")
             return res
         dt, rawt = parse_diags(errt)
-        ft, hardt = classify(dt, wt)
+        ft, hardt = classify(dt, wt, gent)
         if hardt:
             res.update(status="undecided", reason="vacuity twin: %s: %s" % (hardt[0]["kind"], hardt[0]["message"]))
             return res
